@@ -52,7 +52,8 @@ def vectorCross (v w : List K) : Option (List K) :=
 def normSq (v : List K) : K := v.foldl (fun acc x => acc + x * x) 0
 
 /-- `vector_normalize`, given the value `mag` of `vector_magnitude(v)` (a square root, supplied
-    by the caller; the 18-decimals print/parse is the identity on exact numbers);
+    by the caller; the 18-decimals print/parse of the code is not modelled - the harness' exact number type ignores the
+    format spec, so the step is not exercised in exact mode);
     `none` = `ValueError` (zero magnitude) -/
 def vectorNormalize (v : List K) (mag : K) : Option (List K) :=
   if 0 < mag then some (v.map (fun x => x / mag)) else none
